@@ -315,6 +315,30 @@ def r04_6(ctx, run, rule='R04.6'):
                 else:
                     # an element comparison result handed back: must be the value compared with Equal on this path
                     ne = [c for c in p.conds if c[0][0] == 'call' and canon(c[0][1]).endswith(('PartialEq::ne', 'PartialEq::eq'))]
+                    elem_evidence = bool(ne) or any(s_[0] == 'call' and (canon(s_[1]).endswith(('Ord::cmp', 'PartialOrd::partial_cmp')) or 'compare' in canon(s_[1]).split('::')[-1])
+                                                    for c in p.conds for s_ in subterms(c[0]))
+                    if not elem_evidence and agg_variant(inner) and inner[1][1].endswith('cmp::Ordering'):
+                        # a constant order on a path that tested no element result: the tie-break after the loop, spelled out by cases
+                        tb += 1
+                        want = None
+                        for c in p.conds:
+                            t = c[0]
+                            if t[0] == 'bin' and t[1] in ('Lt', 'Gt', 'Le', 'Ge', 'Eq', 'Ne') and isinstance(c[2], bool):
+                                sd = arg_sides(('call', 'x', (t[2], t[3])), b)[:2]
+                                if sd in (['L', 'R'], ['R', 'L']) and all(is_length_term(a, b, f) for a in (t[2], t[3])):
+                                    op = t[1]
+                                    if sd == ['R', 'L']:
+                                        op = {'Lt': 'Gt', 'Gt': 'Lt', 'Le': 'Ge', 'Ge': 'Le'}.get(op, op)
+                                    rel = {('Lt', True): 'Less', ('Gt', True): 'Greater', ('Eq', True): 'Equal', ('Ne', False): 'Equal'}.get((op, c[2]))
+                                    if rel:
+                                        want = rel
+                        if want is None:
+                            run.undecided(rule, fn, 'tie-break', f'after equal common prefixes a constant {inner[1][2]} is returned under length tests this rule does not evaluate: not decided', f'{b.file}:{b.line}')
+                        elif want == inner[1][2]:
+                            run.proved(rule, fn, 'tie-break', f'{inner[1][2]} exactly when the left count is {want.lower()} (by comparison of the two counts)', f'{b.file}:{b.line}')
+                        else:
+                            run.violation(rule, fn, 'tie-break', f'after equal common prefixes {inner[1][2]} is returned on a path where the left count is {want.lower()} than / to the right count', f'{b.file}:{b.line}')
+                        continue
                     el += 1
                     ok = any(deref_all(c[0][2][0]) == inner or inner in [deref_all(x) for x in c[0][2]] for c in ne) or is_call(inner, 'Try::branch') or inner[0] in ('field', 'downcast')
                     if ok:
